@@ -140,6 +140,13 @@ if __name__ == '__main__':
                 continue
             call = 'Goldilocks::%s(%s)' % (r['name'], ', '.join(r['args']))
             tt = {'batch': 'T4', 'avx': 'T4', 'avx512': 'T8'}[fam]
-            print('{"%s", %d, OP_%s, %d, %s, %s, %s, [](TB &tb) { %s &t = static_cast<%s &>(tb); %s; }},' % (r['decl'], r['line'], r['op'].upper(), r['L'], r['A'], r['B'], r['C'], tt, tt, call))
+            # in-place register forms: the result register is the first / second register operand
+            def alias(which):
+                reg = 't.%sreg' % which
+                if r['C'] != 'K_REG' or r[which.upper()] != 'K_REG' or reg not in r['args']:
+                    return 'nullptr'
+                args2 = [reg if a == 't.creg' else a for a in r['args']]
+                return '[](TB &tb) { %s &t = static_cast<%s &>(tb); Goldilocks::%s(%s); }' % (tt, tt, r['name'], ', '.join(args2))
+            print('{"%s", %d, OP_%s, %d, %s, %s, %s, [](TB &tb) { %s &t = static_cast<%s &>(tb); %s; }, %s, %s},' % (r['decl'], r['line'], r['op'].upper(), r['L'], r['A'], r['B'], r['C'], tt, tt, call, alias('a'), alias('b')))
         if fam == 'avx512':
             print('#endif')
